@@ -24,11 +24,37 @@ Definition ingress_burst (up : N) : N := clamp_burst (up / 8).
 Definition full_bucket (r b p : N) : bytes :=
   tb_encode {| tokens := b; last := 0; rate := r; burst := b; prio := p |}.
 
-Record state := { eg : kvmap; ing : kvmap }.
-Definition init : state := {| eg := []; ing := [] |}.
+(* radius.PolicyManager: name -> policy, AddPolicy overwrites an existing name (map assignment), an empty
+   name is refused, RemovePolicy deletes, GetPolicy returns nil for an unknown name. Kept sorted by name. *)
+Definition pol := (N * N * N * N)%type.          (* DownloadBPS, UploadBPS, BurstSize, Priority *)
+Definition ptab := list (bytes * pol).
+Fixpoint p_get (t : ptab) (n : bytes) : option pol :=
+  match t with [] => None | (n', v) :: tl => if bytes_eqb n n' then Some v else p_get tl n end.
+Fixpoint p_put (t : ptab) (n : bytes) (v : pol) : ptab :=
+  match t with
+  | [] => [(n, v)]
+  | (n', v') :: tl => if bytes_eqb n n' then (n, v) :: tl
+                      else if lex_leb n n' then (n, v) :: (n', v') :: tl else (n', v') :: p_put tl n v
+  end.
+Fixpoint p_del (t : ptab) (n : bytes) : ptab :=
+  match t with [] => [] | (n', v) :: tl => if bytes_eqb n n' then tl else (n', v) :: p_del tl n end.
+
+(* radius.DefaultPolicies(), names as ASCII bytes *)
+Definition default_policies : list (bytes * pol) :=
+  [ ([114;101;115;105;100;101;110;116;105;97;108;45;53;48;109;98;112;115], (50000000, 10000000, 1000000, 4));
+    ([114;101;115;105;100;101;110;116;105;97;108;45;49;48;48;109;98;112;115], (100000000, 20000000, 2000000, 4));
+    ([114;101;115;105;100;101;110;116;105;97;108;45;53;48;48;109;98;112;115], (500000000, 50000000, 5000000, 4));
+    ([114;101;115;105;100;101;110;116;105;97;108;45;49;103;98;112;115], (1000000000, 100000000, 10000000, 4));
+    ([98;117;115;105;110;101;115;115;45;49;48;48;109;98;112;115], (100000000, 100000000, 2000000, 6));
+    ([98;117;115;105;110;101;115;115;45;49;103;98;112;115], (1000000000, 1000000000, 10000000, 6));
+    ([103;117;101;115;116], (10000000, 5000000, 500000, 2));
+    ([117;110;108;105;109;105;116;101;100], (0, 0, 0, 4)) ].
+
+Record state := { eg : kvmap; ing : kvmap; pols : ptab }.
+Definition init : state := {| eg := []; ing := []; pols := [] |}.
 Definition get_map (s : state) (d : dir) : kvmap := match d with Egress => eg s | Ingress => ing s end.
 Definition set_map (s : state) (d : dir) (m : kvmap) : state :=
-  match d with Egress => {| eg := m; ing := ing s |} | Ingress => {| eg := eg s; ing := m |} end.
+  match d with Egress => {| eg := m; ing := ing s; pols := pols s |} | Ingress => {| eg := eg s; ing := m; pols := pols s |} end.
 
 Inductive op :=
 | PutRaw (d : dir) (key val : bytes)                 (* direct write into the map the program reads *)
@@ -37,13 +63,22 @@ Inductive op :=
 | Pkt (d : dir) (frame : bytes) (plen now : N)       (* one program run: linear bytes, skb->len, clock *)
 | Sub (d : dir) (ip : bytes) (plen now : N)          (* canonical IPv4 frame of subscriber ip *)
 | Rep (d : dir) (ip : bytes) (plen start gap n : N)  (* n canonical frames at start + i*gap (mod 2^64) *)
-| Snap (d : dir).
+| Snap (d : dir)
+(* radius.PolicyManager and qos.Manager.SetSubscriberPolicy *)
+| PolAdd (name : bytes) (down up burst pr : N)     (* AddPolicy: define or RE-define *)
+| PolRemove (name : bytes)
+| PolGet (name : bytes)
+| PolLoadDefaults
+| PolList
+| ApplyPol (ip : bytes) (name : bytes).            (* SetSubscriberPolicy(ip, name) *)
 
 Inductive out :=
 | OUnit | OErr
 | OVerdict (v pr : N)
 | ORle (l : list (N * N))          (* run-length encoded verdicts *)
 | OSnap (l : kvmap)
+| OPol (p : option pol)
+| ONames (l : list bytes)
 | OOob.
 
 Definition is_v4 (ip : bytes) : bool := N.of_nat (length ip) =? 4.
@@ -52,7 +87,7 @@ Definition set_qos (s : state) (ip : bytes) (down up burst pr : N) : state * lis
   let k := key_bytes ip in
   let be := egress_burst down burst in
   let bi := ingress_burst up in
-  ({| eg := m_put (eg s) k (full_bucket down be pr); ing := m_put (ing s) k (full_bucket up bi pr) |},
+  ({| eg := m_put (eg s) k (full_bucket down be pr); ing := m_put (ing s) k (full_bucket up bi pr); pols := pols s |},
    (if bytes_eqb k ip then [] else [1901]) ++
    (if negb (burst =? 0) && negb (bi =? burst) then [1902] else [])).
 
@@ -93,7 +128,7 @@ Definition step (s : state) (o : op) : state * out * list N :=
   | SetQoS _ ip down up burst pr =>
       if is_v4 ip then let '(s', mk) := set_qos s ip down up burst pr in (s', OUnit, mk) else (s, OErr, [])
   | Remove ip =>
-      if is_v4 ip then ({| eg := m_del (eg s) (key_bytes ip); ing := m_del (ing s) (key_bytes ip) |}, OUnit, [])
+      if is_v4 ip then ({| eg := m_del (eg s) (key_bytes ip); ing := m_del (ing s) (key_bytes ip); pols := pols s |}, OUnit, [])
       else (s, OErr, [])
   | Pkt d f plen now =>
       let '(m', v, mk) := qos_prog d (get_map s d) f plen now 0 in
@@ -105,6 +140,22 @@ Definition step (s : state) (o : op) : state * out * list N :=
       let '(m', l, mk) := rep_run n d (get_map s d) (sub_frame d ip) plen start gap in
       (set_map s d m', ORle l, mk)
   | Snap d => (s, OSnap (get_map s d), [])
+  | PolAdd n down up b pr =>
+      match n with
+      | [] => (s, OErr, [])
+      | _ => ({| eg := eg s; ing := ing s; pols := p_put (pols s) n (down, up, b, pr) |}, OUnit, [])
+      end
+  | PolRemove n => ({| eg := eg s; ing := ing s; pols := p_del (pols s) n |}, OUnit, [])
+  | PolGet n => (s, OPol (p_get (pols s) n), [])
+  | PolLoadDefaults =>
+      ({| eg := eg s; ing := ing s; pols := fold_left (fun t x => p_put t (fst x) (snd x)) default_policies (pols s) |}, OUnit, [])
+  | PolList => (s, ONames (map fst (pols s)), [])
+  | ApplyPol ip n =>
+      match p_get (pols s) n with
+      | None => (s, OErr, [])
+      | Some (down, up, b, pr) =>
+          if is_v4 ip then let '(s', mk) := set_qos s ip down up b pr in (s', OUnit, mk) else (s, OErr, [])
+      end
   end.
 
 (* equality on observables *)
@@ -126,5 +177,8 @@ Definition out_eqb (a b : out) : bool :=
   | OVerdict v p, OVerdict v' p' => (v =? v') && (p =? p')
   | ORle l, ORle l' => rle_eqb l l'
   | OSnap l, OSnap l' => kv_eqb l l'
+  | OPol None, OPol None => true
+  | OPol (Some (a, b, c, d)), OPol (Some (a', b', c', d')) => (a =? a') && (b =? b') && (c =? c') && (d =? d')
+  | ONames l, ONames l' => (N.of_nat (length l) =? N.of_nat (length l')) && forallb (fun x => bytes_eqb (fst x) (snd x)) (combine l l')
   | _, _ => false
   end.
